@@ -334,3 +334,16 @@ impl<'a> LatticeBuilder<'a> {
         Ok(other)
     }
 }
+
+#[cfg(feature = "verif")]
+impl<D: DictionaryAccess> StatefulTokenizer<D> {
+    /// Lattice of the last analysis (valid after do_tokenize, before the next one)
+    pub fn verif_lattice(&self) -> &Lattice {
+        &self.lattice
+    }
+
+    /// Input of the last analysis (valid after do_tokenize, before results are collected)
+    pub fn verif_input(&self) -> &InputBuffer {
+        &self.input
+    }
+}
